@@ -66,7 +66,9 @@ class IndexedData(BaseCartesianData, HubListener):
             changed = False
             for idim in range(self._original_data.ndim):
                 before, after = self._indices[idim], value[idim]
-                if type(before) is not type(after):
+                # Note that we don't compare the types directly since the
+                # indices could be a mix of Python and Numpy integers
+                if (before is None) != (after is None):
                     raise TypeError("Can't change where the ``None`` values are in indices")
                 elif before != after:
                     changed = True
